@@ -6,7 +6,6 @@ package main
 import (
 	"fmt"
 	"math/bits"
-	"strings"
 )
 
 type Op uint8
@@ -68,26 +67,41 @@ type Term struct {
 }
 
 type TermTable struct {
-	tab    map[string]*Term
+	tab    map[termKey]*Term
 	nextID int
 	vars   []*Term
 }
 
-func NewTermTable() *TermTable { return &TermTable{tab: map[string]*Term{}} }
+func NewTermTable() *TermTable { return &TermTable{tab: map[termKey]*Term{}} }
 
 func (tt *TermTable) Reset() {
-	tt.tab = map[string]*Term{}
+	tt.tab = map[termKey]*Term{}
 	tt.nextID = 0
 	tt.vars = nil
 }
 
+type termKey struct {
+	op         Op
+	w          int
+	val        uint64
+	aux        int
+	name       string
+	a0, a1, a2 int
+	n          int
+}
+
 func (tt *TermTable) intern(t *Term) *Term {
-	var sb strings.Builder
-	fmt.Fprintf(&sb, "%d:%d:%d:%d:%s", t.op, t.w, t.val, t.aux, t.name)
-	for _, a := range t.args {
-		fmt.Fprintf(&sb, ",%d", a.id)
+	k := termKey{op: t.op, w: t.w, val: t.val, aux: t.aux, name: t.name, n: len(t.args)}
+	switch len(t.args) {
+	case 3:
+		k.a2 = t.args[2].id
+		fallthrough
+	case 2:
+		k.a1 = t.args[1].id
+		fallthrough
+	case 1:
+		k.a0 = t.args[0].id
 	}
-	k := sb.String()
 	if e, ok := tt.tab[k]; ok {
 		return e
 	}
